@@ -1820,6 +1820,11 @@ func (f *fnTrans) typeInv(t Term, typ types.Type) Term {
 		if ti[0] != n.Obj().Name() {
 			continue
 		}
+		// an invariant tagged with properties is part of those properties' checks only: a run for
+		// another property neither owes nor assumes it (as for tagged clauses and loop invariants)
+		if ti[3] != "" && f.w.RunningProp != "" && !hasProp(strings.Split(ti[3], ","), f.w.RunningProp) {
+			continue
+		}
 		ex, err := ParseSpecExpr(ti[1])
 		if err != nil {
 			f.unsupported("%s: typeinv: %v", ti[2], err)
